@@ -13,8 +13,8 @@ Section Ids.
   Variable strat : strategy.
   Variable nconns : nat.
   Variable tgt : nat -> N.
-  Notation step := (step strat false nconns tgt).
-  Notation reachable := (reachable strat false nconns tgt).
+  Notation step := (step strat false false nconns tgt).
+  Notation reachable := (reachable strat false false nconns tgt).
 
   (** between the return of subscribe and the end of the deferred unsubscribe *)
   Definition subscribed (pc : wait_pc) : bool :=
